@@ -1,13 +1,50 @@
 from props import TB_COMMON
 ENTRY = dict(
     level="proof",
-    level_text="(being built)",
-    level_note="(being built)",
-    technique="Lean 4 proof (inductive invariants of a small-step model of the broadcaster) + actor differential of the real tracer + grammar on engine histories",
+    level_text=("Lean 4 theorems over a small-step model of the broadcaster goroutine of pkg/tracing (unbuffered request "
+                "channels, ordered subscriber list, bounded subscriber buffers incl. capacity 0, swap-removal, the draining "
+                "Unsubscribe loop) with an explicit scheduler, for ALL action lists - any number of senders, subscribers, "
+                "buffer sizes, consumer speeds, joins and leaves, of any length - by inductive invariants: every subscriber "
+                "holds (received ++ drained ++ queued) exactly the contiguous segment of the one global send order between "
+                "its subscription and its removal (tracer_segment, tracer_same_order); the global order restricted to a "
+                "sender is its program order (tracer_sender_order); with the other consumers willing, every run of the "
+                "goroutines inside the protocol is at most mu(state) steps long and can always be extended while a "
+                "Send/Subscribe/Unsubscribe has not returned (tracer_unsub_progress; kernel-checked deadlock schedule when "
+                "Unsubscribe does not drain); swap-removal leaves the other subscribers untouched; a relay subscribed before "
+                "the first Send forwards the whole stream (witness schedule otherwise); and the causality grammar holds for "
+                "every interleaving of flows that send in flow.go's order (flows_causal). Tied to the code by extracted "
+                "facts, by an actor differential of the real tracer replayed through the model, and by evaluating the "
+                "grammar on real engine histories."),
+    level_note=("trusted: Lean kernel, extractor, harness. Modelled, not verified: Go channels/select as atomic channel "
+                "operations; tracer termination (ctx.Done/terminate/Done) is not modelled (C07). Usage discipline built into "
+                "the model: a fresh channel per subscription, the consumer stops reading before it calls Unsubscribe, a sender "
+                "is a sequential goroutine. Unsubscribe of a channel that is not subscribed spins for ever (theorem "
+                "unsubscribe_unsubscribed_spins) - outside the statement. The causality theorem is about an abstract model of "
+                "flow.go's sending order (FlowOrder), not derived from the layer-2 engine model; its tie to the engine is the "
+                "grammar evaluated on recorded histories (family c09g). Liveness is bounded progress of the model, assuming "
+                "every enabled goroutine is eventually scheduled; on the implementation it is a deadline on every call."),
+    technique="Lean 4 proof (inductive invariants over all schedules of a channel-level model) + actor differential with model replay + grammar on engine histories",
     lean_modules=["Bpmn.Props.C09", "Bpmn.Props.C09Current"],
     families=["c09", "c09g"],
     exhaustive=False,
-    rule="(being built)",
-    trusted_base=TB_COMMON,
-    assumptions=[],
+    rule=("c09: seeded plans of 1..8 sender goroutines (1..40 numbered traces each, thorough 1..120), 1..4 subscriber slots "
+          "with 1..3 subscription episodes each (fresh channel, capacity in {0,1,2,3,5,10,64}, consumer pace 0..3, join at a "
+          "generated position of the stream, concurrently with the senders or with the senders paused, leave after a "
+          "generated number of traces or stay to the end) against the real tracer, plus a permanent witness subscriber "
+          "(index 0, never blocks) that defines the global order; a quarter (thorough: half) of the cases with the "
+          "tracer.broadcast schedule point perturbed; every call under a 4 s deadline monitor. The driver checks the "
+          "witness (every trace once, every sender in program order), every episode (a contiguous segment of the witness "
+          "order that starts inside the window in which its SubscribeChannel ran and reaches the end if it read to the "
+          "end), and replays the operation sequence through Model.Tracer.step comparing what each episode received. "
+          "c09g: the block-structured programs of C01's generator (two thirds) and loops around 3..7-way parallel forks "
+          "(one third) on the real engine, every second case with the engine's schedule points perturbed; Spec.causal is "
+          "evaluated on the recorded trace stream (relayed sub-process traces handled explicitly). non-trivial = some "
+          "episode received traces (c09) / the history contains a FlowTrace announcing a new flow (c09g); distinct by "
+          "plan and recorded history"),
+    trusted_base=TB_COMMON + ["whole-process quiescence detection via runtime.Stack goroutine states (c09g pacing)",
+                              "the deadline monitor of family c09 (4 s per call) stands for 'never'"],
+    assumptions=["every subscribed consumer other than the unsubscriber eventually takes what is pushed to it",
+                 "one subscription per channel; the consumer does not read its channel after calling Unsubscribe",
+                 "a sender id names one sequential goroutine",
+                 "flow ids are unique (C20)"],
 )
